@@ -1,23 +1,26 @@
 /-
 C04 — property theorems: symbolic dimension arithmetic is evaluated at run time with the integer
-result JAX computes, for every binding of the symbols.
+result JAX computes, for every binding of the symbols.  (Model of /repo ≥ 31efd88: floordiv is
+emitted as `Div(Sub(a, Mod(a, b)), b)`, memo keys are tagged by kind.)
 
-Proved for ALL expressions (structural induction over `_DimExpr`), all bindings, all memo states:
+Proved for ALL expressions (structural induction over `_DimExpr`), ALL bindings (positive or not),
+all memo states, all sequences of origin recordings:
 
-* `lower_correct_partial`        chain of `LowerDimExpr` = JAX value, PROVIDED every `floordiv`
-                                 divides exactly or has operands of equal sign (`SafeDiv`)
-* `floordiv_off_by_one`          outside that proviso the emitted `Div` is exactly one too large
-* `lower_correct_refuted`        the full statement (no proviso) is FALSE: `(B-5)//2 + 10` at `B = 2`
-* `cache_transparent_partial`    memoisation does not change the value, PROVIDED the text keys are
-                                 faithful (equal key ⇒ equal value)
-* `cache_transparent_refuted`    the full statement is FALSE for the keys the code really uses:
-                                 `B^2 + 2*B` — `str((B, 2))` is both "factor B to the power 2" and
-                                 "term B with coefficient 2"
-* `call_transparent_partial`     the same for any sequence of `LowerDimExpr.__call__`s on one memo
-* `origin_sound`                 invariant of the origin table over all sequences of recording
-                                 operations; `origin_lookup_sound`, `orgSound_of_table`
-* `export_dim_correct_partial`   composition: table built by well-shaped recordings + faithful keys
-                                 + `SafeDiv` ⇒ run-time value of the memoised chain = JAX value
+* `lower_correct`              the chain `LowerDimExpr` emits has the value JAX computes — no proviso
+* `floordiv_nodes_floor`, `ops_agree`   `Div(Sub(a, Mod(a,b)), b)` = Python `//` for every sign
+                               combination; relied upon: integer `Div` truncates, integer `Mod`
+                               with fmod = 0 has the sign of the divisor (both compared with ONNX
+                               Runtime on a box each run)
+* `cache_transparent`          memoisation does not change any value of a whole sequence of
+                               `__call__`s, for the keys the code really uses, PROVIDED the
+                               decidable check `keysConsistent` accepts them — the harness runs the
+                               check on the live keys of every export (no assumption about `str`)
+* `cache_transparent_of_faithful`, `call_transparent_of_faithful`   the underlying general statement
+* `origin_sound`, `origin_lookup_sound`, `orgSound_of_table`   invariant of the origin table
+* `export_dim_correct`         composition: run-time value of the memoised chain = JAX value
+* regression (labelled OLD): `old_div_off_by_one`, `old_div_lowering_refuted`,
+  `old_keys_inconsistent`, `old_keys_memo_wrong` — what the lowering before 31efd88 got wrong;
+  `new_keys_consistent` — the same expression with the tagged keys passes the check
 -/
 import J2O.Lemmas.C04
 set_option linter.unusedVariables false
@@ -29,30 +32,36 @@ namespace J2O.C04
 /-- `(B - 5)//2 + 10` as JAX stores it. -/
 def exFloordiv : Expr :=
   .mk "floordiv(B - 5, 2) + 10"
-    (.cons "(floordiv(B - 5, 2), 1)" "floordiv(B - 5, 2)"
-      (.mul "(floordiv(B - 5, 2), 1)"
+    (.cons "term*coeff:(floordiv(B - 5, 2), 1)" "floordiv(B - 5, 2)"
+      (.mul "factor^power:(floordiv(B - 5, 2), 1)"
         (.op "floordiv#(B - 5, 2)" .floordiv
-          (.mk "B - 5" (.cons "(B, 1)" "B" (.mul "(B, 1)" (.var "B") 1 .one) 1
-                        (.cons "(, -5)" "" .one (-5) .nil)))
-          (.mk "2" (.cons "(, 2)" "" .one 2 .nil))) 1 .one) 1
-      (.cons "(, 10)" "" .one 10 .nil))
+          (.mk "B - 5" (.cons "term*coeff:(B, 1)" "B" (.mul "factor^power:(B, 1)" (.var "B") 1 .one) 1
+                        (.cons "term*coeff:(, -5)" "" .one (-5) .nil)))
+          (.mk "2" (.cons "term*coeff:(, 2)" "" .one 2 .nil))) 1 .one) 1
+      (.cons "term*coeff:(, 10)" "" .one 10 .nil))
 
-/-- `B*B + 2*B` as JAX stores it (`B^2 + 2*B`). -/
+/-- `B*B + 2*B` as JAX stores it (`B^2 + 2*B`), with the keys of /repo ≥ 31efd88. -/
 def exCollide : Expr :=
+  .mk "B^2 + 2*B"
+    (.cons "term*coeff:(B^2, 1)" "B^2" (.mul "factor^power:(B, 2)" (.var "B") 2 .one) 1
+      (.cons "term*coeff:(B, 2)" "B" (.mul "factor^power:(B, 1)" (.var "B") 1 .one) 2 .nil))
+
+/-- OLD: the same expression with the untagged keys `str((factor, power))`, `str((term, coeff))`. -/
+def exCollideOldKeys : Expr :=
   .mk "B^2 + 2*B"
     (.cons "(B^2, 1)" "B^2" (.mul "(B, 2)" (.var "B") 2 .one) 1
       (.cons "(B, 2)" "B" (.mul "(B, 1)" (.var "B") 1 .one) 2 .nil))
 
-/-- `(B*N + 3)//2` — a floordiv that is always safe for positive sizes. -/
+/-- `(B*N + 3)//2`. -/
 def exSafe : Expr :=
   .mk "floordiv(B*N + 3, 2)"
-    (.cons "(floordiv(B*N + 3, 2), 1)" "floordiv(B*N + 3, 2)"
-      (.mul "(floordiv(B*N + 3, 2), 1)"
+    (.cons "term*coeff:(floordiv(B*N + 3, 2), 1)" "floordiv(B*N + 3, 2)"
+      (.mul "factor^power:(floordiv(B*N + 3, 2), 1)"
         (.op "floordiv#(B*N + 3, 2)" .floordiv
-          (.mk "B*N + 3" (.cons "(B*N, 1)" "B*N"
-              (.mul "(N, 1)" (.var "N") 1 (.mul "(B, 1)" (.var "B") 1 .one)) 1
-              (.cons "(, 3)" "" .one 3 .nil)))
-          (.mk "2" (.cons "(, 2)" "" .one 2 .nil))) 1 .one) 1 .nil)
+          (.mk "B*N + 3" (.cons "term*coeff:(B*N, 1)" "B*N"
+              (.mul "factor^power:(N, 1)" (.var "N") 1 (.mul "factor^power:(B, 1)" (.var "B") 1 .one)) 1
+              (.cons "term*coeff:(, 3)" "" .one 3 .nil)))
+          (.mk "2" (.cons "term*coeff:(, 2)" "" .one 2 .nil))) 1 .one) 1 .nil)
 
 /-- graph input 0 has shape `(B,)`, input 1 has shape `(N, 4)` -/
 def exOrg : Org := fun n => if n = "B" then ("in_0", 0) else ("in_1", 0)
@@ -62,67 +71,45 @@ def exShapes (b n : Int) : String → Nat → Int := fun v ax =>
 
 /-! ### Dimension arithmetic -/
 
-/-- **Lowering is correct wherever truncation and flooring agree.** For every expression, every
-    binding `σ` (positive or not), every origin assignment that is sound for the symbols of the
-    expression: the ONNX value of the emitted chain is the value JAX computes. -/
-theorem lower_correct_partial (org : Org) (sh : String → Nat → Int) (σ : String → Int) (e : Expr)
-    (ho : OrgSound org sh σ e.vars) (hs : e.SafeDiv σ) :
-    (lowerExpr org e).eval sh = e.evalJax σ := by
+/-- `Div(Sub(a, Mod(a, b)), b)` with truncating `Div` and divisor-signed `Mod` is Python's `//`,
+    for all integers. -/
+theorem floordiv_nodes_floor (x y : Int) : OpKind.onnx .floordiv x y = OpKind.jax .floordiv x y :=
+  tdiv_sub_fmod x y
+
+/-- every operation's nodes mean what JAX means, for all integers -/
+theorem ops_agree (o : OpKind) (x y : Int) : OpKind.onnx o x y = OpKind.jax o x y := by
+  rw [onnx_eq_jax]
+
+/-- **Lowering is correct** for every expression, every binding `σ` (positive or not) and every origin
+    assignment that is sound for the symbols of the expression: the ONNX value of the emitted chain
+    is the value JAX computes. -/
+theorem lower_correct (org : Org) (sh : String → Nat → Int) (σ : String → Int) (e : Expr)
+    (ho : OrgSound org sh σ e.vars) : (lowerExpr org e).eval sh = e.evalJax σ := by
   rw [lowerExpr_eval org sh σ e ho]
-  exact Expr.evalO_eq σ e hs
+  show e.evalWith OpKind.onnx σ = e.evalWith OpKind.jax σ
+  rw [onnx_eq_jax]
 
--- non-vacuity: a floordiv expression that satisfies the hypotheses at B = 3, N = 5
+-- non-vacuity, and the former counterexample now evaluates to the JAX value
 example : OrgSound exOrg (exShapes 3 5) (exSigma 3 5) exSafe.vars := by unfold OrgSound; decide
-example : exSafe.SafeDiv (exSigma 3 5) := by
-  simp only [exSafe, Expr.SafeDiv, Terms.SafeDiv, Term.SafeDiv, Factor.SafeDiv, true_and, and_true]
-  intro _; exact Or.inr (Or.inl (by decide))
 example : (lowerExpr exOrg exSafe).eval (exShapes 3 5) = 9 := by decide
-
-/-- Sharpness of the proviso: with a negative numerator, a positive denominator and a non-zero
-    remainder, ONNX `Div` returns exactly one more than Python's `//`. -/
-theorem floordiv_off_by_one (x y : Int) (hx : x < 0) (hy : 0 < y) (hd : ¬ y ∣ x) :
-    OpKind.onnx .floordiv x y = OpKind.jax .floordiv x y + 1 :=
-  tdiv_eq_fdiv_add_one hx hy hd
-
-example : (-3 : Int) < 0 ∧ (0 : Int) < 2 ∧ ¬ (2 : Int) ∣ -3 := by decide
-
-/-- All other operations agree for all integers (`Mod` with fmod = 0 follows the divisor, like `%`). -/
-theorem other_ops_agree (o : OpKind) (h : o ≠ .floordiv) (x y : Int) :
-    OpKind.onnx o x y = OpKind.jax o x y := by
-  cases o <;> first | rfl | exact absurd rfl h
-
-/-- The full-strength statement: for positive sizes the chain always equals the JAX value. -/
-def LowerCorrectFull : Prop :=
-  ∀ (org : Org) (sh : String → Nat → Int) (σ : String → Int) (e : Expr),
-    (∀ n, 0 < σ n) → OrgSound org sh σ e.vars → (lowerExpr org e).eval sh = e.evalJax σ
-
-/-- **It is false** (genuine defect of /repo, finding F-C04-floordiv): `(B-5)//2 + 10` at `B = 2`
-    is 8 in JAX, the emitted `Div` chain gives 9. -/
-theorem lower_correct_refuted : ¬ LowerCorrectFull := by
-  intro h
-  have := h exOrg (exShapes 2 1) (exSigma 2 1) exFloordiv
-    (by intro n; unfold exSigma; split <;> decide) (by unfold OrgSound; decide)
-  revert this
-  decide
-
-example : (lowerExpr exOrg exFloordiv).eval (exShapes 2 1) = 9 := by decide
+example : (lowerExpr exOrg exFloordiv).eval (exShapes 2 1) = 8 := by decide
 example : exFloordiv.evalJax (exSigma 2 1) = 8 := by decide
+example : (lowerExpr exOrg exFloordiv).render
+    = "Add(Div(Sub(Add(S(in_0,0),-5),Mod(Add(S(in_0,0),-5),2)),2),10)" := by decide
 
 /-! ### The memo -/
 
-/-- **Memoisation is transparent when keys are faithful.** `D` gives every key one value;
-    if every key occurring in `e` is used for a sub-expression of that value (`Faithful`) and the
-    memo is coherent on entry, the memoised walk returns a chain with the value of the un-memoised
-    one and leaves the memo coherent — whatever the memo already contains. -/
-theorem cache_transparent_partial (D : Key → Int) (org : Org) (sh : String → Nat → Int)
+/-- **General form.** `D` gives every key one value; if every key occurring in `e` is used for a
+    sub-expression of that value (`Faithful`) and the memo is coherent on entry, the memoised walk
+    returns a chain with the value of the un-memoised one and leaves the memo coherent. -/
+theorem cache_transparent_of_faithful (D : Key → Int) (org : Org) (sh : String → Nat → Int)
     (σ : String → Int) (hD : ∀ k, D (.num k) = k) (e : Expr) (c : Cache)
     (hf : e.Faithful D σ) (ho : OrgSound org sh σ e.vars) (hc : CacheOK D sh c) :
     (lowerExprC org e c).1.eval sh = (lowerExpr org e).eval sh ∧ CacheOK D sh (lowerExprC org e c).2 := by
   have h := lowerExprC_good D org sh σ hD e c hf ho hc
   exact ⟨by rw [h.1, lowerExpr_eval org sh σ e ho], h.2⟩
 
-/-- The same for one `LowerDimExpr.__call__` on a list of expressions. -/
-theorem call_transparent_partial (D : Key → Int) (org : Org) (sh : String → Nat → Int)
+theorem call_transparent_of_faithful (D : Key → Int) (org : Org) (sh : String → Nat → Int)
     (σ : String → Int) (hD : ∀ k, D (.num k) = k) :
     ∀ (es : List Expr) (c : Cache),
       (∀ e ∈ es, e.Faithful D σ ∧ OrgSound org sh σ e.vars) → CacheOK D sh c →
@@ -131,42 +118,24 @@ theorem call_transparent_partial (D : Key → Int) (org : Org) (sh : String → 
   | [], c, _, hc => ⟨rfl, hc⟩
   | e :: es, c, h, hc => by
     have he := h e (List.mem_cons_self ..)
-    have h1 := cache_transparent_partial D org sh σ hD e c he.1 he.2 hc
-    have h2 := call_transparent_partial D org sh σ hD es _ (fun e' he' => h e' (List.mem_cons_of_mem _ he')) h1.2
+    have h1 := cache_transparent_of_faithful D org sh σ hD e c he.1 he.2 hc
+    have h2 := call_transparent_of_faithful D org sh σ hD es _ (fun e' he' => h e' (List.mem_cons_of_mem _ he')) h1.2
     simp only [lowerCallC, List.map_cons, h1.1, h2.1]
     exact ⟨trivial, h2.2⟩
 
-/-- faithful keys for `exSafe` at B = 3, N = 5 (non-vacuity of `Faithful`) -/
-def exD : Key → Int
-  | .num k => k
-  | .txt s =>
-    if s = "B" ∨ s = "(B, 1)" then 3 else if s = "N" ∨ s = "(N, 1)" then 5
-    else if s = "B*N" ∨ s = "(B*N, 1)" then 15 else if s = "B*N + 3" then 18
-    else if s = "" then 1 else if s = "(, 3)" then 3 else if s = "(, 2)" ∨ s = "2" then 2
-    else 9
-example : exSafe.Faithful exD (exSigma 3 5) := by
-  simp only [exSafe, Expr.Faithful, Terms.Faithful, Term.Faithful, Factor.Faithful]
-  decide
-example : (lowerExprC exOrg exSafe []).1.eval (exShapes 3 5) = 9 := by decide
+/-- **Memoisation is transparent for checked keys.** `es` = everything lowered through one
+    `LowerDimExpr` (one memo, starting empty). If the key check accepts the keys, then for EVERY
+    binding the memoised chains have the values of the un-memoised ones. -/
+theorem cache_transparent (org : Org) (sh : String → Nat → Int) (σ : String → Int) (es : List Expr)
+    (hk : keysConsistent es = true) (ho : ∀ e ∈ es, OrgSound org sh σ e.vars) :
+    (lowerCallC org es []).1.map (·.eval sh) = es.map (fun e => (lowerExpr org e).eval sh) :=
+  (call_transparent_of_faithful (Dof (allItems es) σ) org sh σ (fun _ => rfl) es []
+    (fun e he => ⟨faithful_of_consistent es σ hk e he, ho e he⟩) (cacheOK_nil _ _)).1
 
-/-- The full-strength statement: the memo never changes the value (no assumption on keys). -/
-def CacheTransparentFull : Prop :=
-  ∀ (org : Org) (sh : String → Nat → Int) (e : Expr),
-    (lowerExprC org e []).1.eval sh = (lowerExpr org e).eval sh
-
-/-- **It is false for the keys the code really uses** (genuine defect of /repo, finding
-    F-C04-cachekey): in `B^2 + 2*B` the factor `(B, 2)` (= B²) and the term-with-coefficient
-    `(B, 2)` (= 2·B) have the same `str`, so the second is served from the memo: at `B = 3` the
-    chain gives 18, JAX 15.  (At `B = 2`, the only size the repository's tests bind, 2² = 2·2.) -/
-theorem cache_transparent_refuted : ¬ CacheTransparentFull := by
-  intro h
-  have := h exOrg (exShapes 3 1) exCollide
-  revert this
-  decide
-
-example : (lowerExprC exOrg exCollide []).1.eval (exShapes 3 1) = 18 := by decide
+-- the keys the repaired code computes for the witnesses pass the check; the chain is right
+theorem new_keys_consistent : keysConsistent [exCollide, exFloordiv, exSafe] = true := by decide +kernel
+example : (lowerExprC exOrg exCollide []).1.eval (exShapes 3 1) = 15 := by decide
 example : exCollide.evalJax (exSigma 3 1) = 15 := by decide
-example : (lowerExprC exOrg exCollide []).1.eval (exShapes 2 1) = exCollide.evalJax (exSigma 2 1) := by decide
 
 /-! ### Origins -/
 
@@ -276,20 +245,45 @@ example : ∀ op ∈ exOps, op.WellShaped (exSigma 3 5)
 
 /-! ### Composition -/
 
-/-- **End to end for one dimension expression.** Start from the empty origin table, apply any
-    sequence of well-shaped recordings, lower `e` through a coherent memo with faithful keys: if
-    every symbol of `e` has an origin and every floordiv is safe, the run-time value of the
-    emitted chain is the integer JAX computes for the binding `σ`. -/
-theorem export_dim_correct_partial (D : Key → Int) (sh : String → Nat → Int) (σ : String → Int)
-    (M : String → Int) (ops : List OOp) (e : Expr) (c : Cache)
-    (hD : ∀ k, D (.num k) = k)
+/-- **End to end.** Start from the empty origin table, apply any sequence of well-shaped recordings,
+    lower the expressions `es` through one memo whose keys pass the check: if every symbol has an
+    origin, the run-time value of every emitted chain is the integer JAX computes, for every
+    binding `σ`. -/
+theorem export_dim_correct (sh : String → Nat → Int) (σ : String → Int) (M : String → Int)
+    (ops : List OOp) (es : List Expr)
     (hops : ∀ op ∈ ops, op.WellShaped M sh)
-    (hv : ∀ n ∈ e.vars, M n = σ n ∧ (OTable.applyAll [] ops).lookup n ≠ none)
-    (hf : e.Faithful D σ) (hc : CacheOK D sh c) (hs : e.SafeDiv σ) :
-    (lowerExprC (OTable.applyAll [] ops).org e c).1.eval sh = e.evalJax σ := by
+    (hv : ∀ e ∈ es, ∀ n ∈ e.vars, M n = σ n ∧ (OTable.applyAll [] ops).lookup n ≠ none)
+    (hk : keysConsistent es = true) :
+    (lowerCallC (OTable.applyAll [] ops).org es []).1.map (·.eval sh) = es.map (·.evalJax σ) := by
   have ht := origin_sound M sh ops [] (tableSound_nil M sh) hops
-  have ho := orgSound_of_table M sh σ _ ht e.vars hv
-  rw [(cache_transparent_partial D _ sh σ hD e c hf ho hc).1]
-  exact lower_correct_partial _ sh σ e ho hs
+  have ho : ∀ e ∈ es, OrgSound (OTable.applyAll [] ops).org sh σ e.vars :=
+    fun e he => orgSound_of_table M sh σ _ ht e.vars (hv e he)
+  rw [cache_transparent _ sh σ es hk ho]
+  apply List.map_congr_left
+  intro e he
+  exact lower_correct _ sh σ e (ho e he)
+
+/-! ### Regression: what the lowering before /repo 31efd88 got wrong (labelled OLD) -/
+
+/-- OLD: a single truncating `Div` is one above Python's `//` for a negative numerator, positive
+    denominator and non-zero remainder. -/
+theorem old_div_off_by_one (x y : Int) (hx : x < 0) (hy : 0 < y) (hd : ¬ y ∣ x) :
+    OpKind.onnxOld .floordiv x y = OpKind.jax .floordiv x y + 1 :=
+  tdiv_eq_fdiv_add_one hx hy hd
+
+/-- OLD: `(B-5)//2 + 10` at `B = 2` was 9 with the single `Div`, JAX computes 8
+    (finding F-C04-floordiv, fixed by 31efd88). -/
+theorem old_div_lowering_refuted :
+    exFloordiv.evalWith OpKind.onnxOld (exSigma 2 1) = 9 ∧ exFloordiv.evalJax (exSigma 2 1) = 8 := by
+  decide
+
+/-- OLD: with untagged keys `str((B, 2))` named both B² and 2·B: the check rejects them … -/
+theorem old_keys_inconsistent : keysConsistent [exCollideOldKeys] = false := by decide +kernel
+
+/-- … and the memo really returned the wrong chain: 18 instead of 15 at `B = 3`
+    (finding F-C04-cachekey, fixed by 31efd88); the hypothesis of `cache_transparent` is needed. -/
+theorem old_keys_memo_wrong :
+    (lowerExprC exOrg exCollideOldKeys []).1.eval (exShapes 3 1) = 18
+      ∧ (lowerExpr exOrg exCollideOldKeys).eval (exShapes 3 1) = 15 := by decide
 
 end J2O.C04
